@@ -142,7 +142,12 @@ Definition judge (cs : case) : N :=
       let m_rsa := rsa_on && negb (option_eqb bool_eqb (verify_rsa gen_cov certs p) v_rsa &&
                                    bool_eqb (kid_published certs p) v_kid &&
                                    bool_eqb (sig_present p) (has_header sso_signature (o_headers recv))) in
-      let m_hmac := hmac_on && negb (N.eqb (verify_hmac gen_covh vkey p) v_hmac &&
+      (* a client-supplied Gap-Signature that the proxy did not replace is junk: any verdict but a match *)
+      let m_hmac := hmac_on && negb ((match r_gap_sig p with
+                                      | Some _ => N.eqb (verify_hmac gen_covh vkey p) v_hmac
+                                      | None => if has_header gap_signature (r_headers p)
+                                                then negb (N.eqb v_hmac 3) else N.eqb v_hmac 0
+                                      end) &&
                                      bool_eqb (gap_present p) (has_header gap_signature (o_headers recv))) in
       (* harness consistency: the body recorded as sent is the parsed one; the verification key is the documented secret *)
       let m_body := negb (str_eqb (body_bytes r0) sent_body) in
